@@ -6,6 +6,7 @@ for d in seeded/*/; do
   pid=$(basename "$d" | cut -d- -f1)
   by=$(python3 -c "import json,sys; print(json.load(open(sys.argv[1])).get('caught_by',''))" "$d/meta.json" 2>/dev/null)
   [ -n "$by" ] && pid=$by
+  if grep -q '"neutralised"' "$d/meta.json"; then echo "== $d"; echo "   neutralised by a later repair (see meta.json)"; continue; fi
   echo "== $d"
   tools/seeded.py "$d" "$pid" 2>&1 | grep -v "Warning\|^  [a-z'i@_]\|NS_AND\|KNOWN-FINDING" | cut -c1-200 | head -4
 done
